@@ -11,11 +11,14 @@ tallies) on symbolic whole bundles.  For a bundle tag `X`:
   byp_*   = the same for the bypass gap between two ducts.
 `Dassh.Gen.C01Ur` (same mechanism, low-fidelity regions): `ur_balance_<variant>` - enthalpy-flow change of the node(s) = tallied
 power + tallied wall heat, tallied power = q dz, conduction between the six nodes sums to zero.
+`Dassh.Gen.C01Carry` (region change, traced `_activate_base` + the regions' own mixed-mean properties): `carry_<old>_to_<new>` - the mixed
+mean of the new region after activation equals the mixed mean of the old region, given that the new region's weights sum to one.
 -/
 import Dassh.Gen.C01
 import Dassh.Gen.C01Roles
 import Dassh.Gen.C01All
 import Dassh.Gen.C01Ur
+import Dassh.Gen.C01Carry
 import Mathlib.Algebra.Order.Field.Basic
 import Mathlib.Tactic.FieldSimp
 import Mathlib.Tactic.Ring
